@@ -28,7 +28,25 @@ CHECKS = {
    text="AckSound/AckOnWire/NoEarlyDiscard are invariants of SessionPacket.tla (TLC exhaustive). On the real code the check is observational: the simulated network logs deliveries and emissions under one lock, an independent codec decodes every datagram, and TLC evaluates AckSound, RetxSame, SeqDense and TxContiguous at every emitted datagram of every replayed fault schedule (application buffers are reused and overwritten after Write returns, as io.Copy does).",
    note="Trusted: TLC, synctest, reference codec; deliveries are logged before the endpoint can read them and acks are computed before WriteTo, so the comparison cannot false-alarm.",
    technique="TLA+ spec + TLC exhaustive; fault-schedule replay; TLC trace validation of wire events", design="5/C13"),
+ "C04": dict(category="fault_enumeration",
+   text="SessionStream.tla gains TamperAlter/TamperSwap (any altered, shifted or swapped piece fails the next authenticated open; PrefixOK still holds, TLC exhaustive); on UDP a modified datagram is a drop in SessionPacket.tla. The simulated networks then apply one mutation per run at a concrete byte offset of real traffic: every wire region (nonce, metadata ciphertext/tag, body incl. low-entropy, body tag, padding, boundaries) x {flip, substitute, insert, delete, truncate}, whole-segment swap/drop/duplicate, splices inside and across datagrams, reflection to the sender; TLC evaluates ReadExact (position-keyed keystream) on every recorded trace, and Completes/AckSound on UDP.",
+   note="Cryptographic strength of the AEAD is assumed. Offsets inside a region are edge/middle/seeded in the quick tier, every offset in the thorough tier. One genuine protocol-level defect is recorded as a known finding.",
+   technique="TLA+ tamper actions + TLC; byte-offset fault enumeration on real muxes; TLC trace validation", design="5/C04"),
+ "C09": dict(category="model_checking",
+   text="Wire.tla is docs/protocol.md as data (three metadata layouts, numbering, key-derivation constants, limits) with consistency ASSUMEs; TLC exports it as the parameter file of refcodec, an implementation that imports no mieru package. (a) every segment of real sessions under each pattern/mode/rotation is decoded by it (Trace_Session.Decodable); (b) TLC-simulated Interop.tla programmes (padding 0..255, piggyback 0..1024, every mode/rotation/mask class/padding bit, ack-only segments, first nonces that wrap their low-order bytes) are encoded by it and played against a real server and a real client on both transports; TLC validates Understood/EchoExact on the recorded events.",
+   note="'Independent' means no mieru import and parameters from the spec; same author and same document. Primitives (SHA-256, PBKDF2, XChaCha20-Poly1305) are trusted.",
+   technique="TLA+ transcription of the protocol + independent codec; two-way interop runs; TLC trace validation", design="5/C09"),
+ "C14": dict(category="model_checking",
+   text="WireSize.tla states fragment size, low-entropy encoded length, padding budgets and datagram length for every segment kind; TLC checks Fits over MTU 1280..1500 x 5 modes x configured maxima x boundary sizes and exports a boundary table; every row is compared with the real maxPaddingSizeWithTrafficPattern / maxFragmentSize / lowEntropyEncodedPayloadLen; UDP sessions at the budget boundaries (several user names = both padding strategies, piggybacked first writes up to 1024, forced retransmissions) are run and TLC checks FitsMTU/FitsFields on every emitted datagram.",
+   note="Trusted: TLC, accessors (tag verif) forward to the unexported functions. Random padding draws are sampled on the wire; the table comparison does not depend on them.",
+   technique="TLA+ size model evaluated exhaustively by TLC; table comparison with the real functions; TLC trace validation of datagram sizes", design="5/C14"),
+ "C16": dict(category="model_checking",
+   text="TrafficPattern.tla models Validate and implicit generation (draws over the coded intervals); TLC checks that explicit fields are kept and every effective pattern is complete and valid for all originals of the nonce group and of the other fields, and that the pre-fix generator is not. Every exported original x seeds goes through the real NewConfig and TLC validates the result (explicit kept, implicit in range, valid, deterministic, survives Encode/Decode). Explicit patterns are run independently per side on both transports and TLC checks PadOK, NonceOK and LEOK on every emitted segment; effective patterns of sampled originals are run end to end.",
+   note="Intervals of implicit draws are the ones coded (the documentation only names 'limited' vs 'all'). One genuine defect found and fixed.",
+   technique="TLA+ spec + TLC exhaustive; generated-configuration replay into NewConfig; TLC trace validation", design="5/C16"),
 }
+import subprocess
+HOOK_COMMITS = subprocess.run("git -C /repo log --format=%h --grep='^verif hooks'", shell=True, capture_output=True, text=True).stdout.split()
 PENDING = "check not built yet in this session (planned, see DESIGN.md section 5)"
 
 m = {
@@ -38,7 +56,7 @@ m = {
    "guard": "verif",
    "enable": "go1.26.8 test -tags verif (harness module /verif/harness with replace github.com/enfein/mieru/v3 => /repo)",
    "baseline_off_cmd": "cd /repo && GOFLAGS=-mod=mod GOPROXY=off GOSUMDB=off go test -vet=off -count=1 -timeout 25m ./...",
-   "source_commits": [],
+   "source_commits": HOOK_COMMITS,
    "add_only": True,
  },
  "engines": [
